@@ -314,7 +314,7 @@ def check(tier: str) -> int:
     run.assumptions = ["'rejected' = PipelineConfigurationError or ValueError from parse or expand; which stage fires is not compared",
                        "promptness / no materialisation is a measurement: wall < 2 s and tracemalloc peak < 64 MB under RLIMIT_AS 3 GB",
                        "zero blocks with max_runs = 0 is left unspecified"]
-    for cfg in ("RunSpace.src1.check", "RunSpace.ctx2.check"):
+    for cfg in ("RunSpace.src1.check", "RunSpace.ctx2.check", "RunSpace.src2.check"):
         res = tlc.run_tlc("MC_RunSpace", cfg, coverage=True, timeout=1800)
         run.add_tlc(res)
         run.require_tlc_ok(res, cfg)
@@ -323,6 +323,7 @@ def check(tier: str) -> int:
     huge_checks(run)
     cli_dry_run_sample(run)
     _replay(run, "RunSpace.ctx2.emit")
+    _replay(run, "RunSpace.src2.emit")      # two blocks over one shared source file
     if tier == "quick":
         _replay(run, "RunSpace.sim.emit", simulate="num=4000", depth=12, seed=seed + 8)
         _replay(run, "RunSpace.src1.emit")
